@@ -1010,3 +1010,5 @@ V('C01', 'tf-clip-as-min-of-max', 'fire', 'C01.R15', "tensorflow clip rewritten 
   ('src/pyhf/tensor/tensorflow_backend.py', '        return tf.clip_by_value(tensor_in, min_value, max_value)\n', '        return tf.minimum(tf.maximum(tensor_in, min_value), max_value)\n'))
 V("C13", "code4-exponent-mask-strict", "fire", "C13.R3", "code 4 takes exponent 1 (a constant) exactly at |alpha| = alpha0",
   ("src/pyhf/interpolators/code4.py", "            exponents >= self.__alpha0, exponents, self.ones", "            exponents > self.__alpha0, exponents, self.ones"))
+V("C06", "qmu-tilde-clamps-callers-bounds", "fire", "C06.R7", "qmu_tilde replaces a negative lower POI bound IN the caller's bounds list",
+  ("src/pyhf/infer/test_statistics.py", "            + 'If you called this from pyhf.infer.mle or pyhf.infer.hypotest, set test_stat=\"q\".'\n        )\n    return _qmu_like(", "            + 'If you called this from pyhf.infer.mle or pyhf.infer.hypotest, set test_stat=\"q\".'\n        )\n        if par_bounds[pdf.config.poi_index][0] < 0:\n            par_bounds[pdf.config.poi_index] = (0.0, par_bounds[pdf.config.poi_index][1])\n    return _qmu_like("))
